@@ -1,14 +1,171 @@
-"""C02 part (b) — emitted dataclasses vs. the document (filled in together with the C03 machinery)."""
-from ..runner import Collector
+"""C02 part (b) — the emitted dataclasses against the document.
+
+For every named object schema (own + allOf-inherited properties, reference resolver = pbt/refmodel/instances.flatten):
+  * exactly one model class; every declared property has exactly one dataclass field, bound to the ORIGINAL JSON key through
+    Meta.key_transform_with_load (a bijection onto the declared keys), no extra fields;
+  * required  <=>  the field has no default;
+  * coarse kind of the annotation: str/int/float/bool/list/dict-or-wrapper/model/enum (datetime/date/UUID/bytes count as string).
+Domain: the union-free clean domain of C03 (shared strategy), names incl. colliding ones (createdAt / created_at / created_at_2).
+"""
+
+from __future__ import annotations
+
+import dataclasses
+import enum
+import typing
+
+from .. import genrun, hyp, specgen
+from ..refmodel import instances as I
+from ..runner import Collector, Violation
+from . import c03
 
 
-def shards(tier, seed):
-    return []
+def _coarse(tp, depth=0) -> str:
+    import datetime
+    import uuid
+
+    if depth > 6:
+        return "?"
+    origin = typing.get_origin(tp)
+    if origin is typing.Annotated:
+        return _coarse(typing.get_args(tp)[0], depth + 1)
+    if origin is typing.Union or str(origin) == "<class 'types.UnionType'>":
+        args = [a for a in typing.get_args(tp) if a is not type(None)]
+        if len(args) == 1:
+            return _coarse(args[0], depth + 1)
+        return "union"
+    if origin in (list, typing.List):
+        return "array"
+    if origin is dict:
+        return "map"
+    if tp is typing.Any:
+        return "any"
+    if isinstance(tp, type):
+        if issubclass(tp, enum.Enum):
+            return "enum"
+        if dataclasses.is_dataclass(tp):
+            fields = {f.name for f in dataclasses.fields(tp)}
+            return "map" if fields == {"_data"} else "object"
+        if tp is bool:
+            return "boolean"
+        if tp is int:
+            return "integer"
+        if tp is float:
+            return "number"
+        if tp in (str, bytes, datetime.datetime, datetime.date, uuid.UUID):
+            return "string"
+    return "?"
 
 
-def run_shard(shard):
-    return Collector().to_dict()
+def check_models(res: genrun.GenResult, spec: dict) -> tuple[list[Violation], int, int]:
+    schemas = (spec.get("components") or {}).get("schemas") or {}
+    viols: list[Violation] = []
+    ev = nt = 0
+    with genrun.load_package(res):
+        models = genrun.import_module_of(res, "models")
+        for name, node in schemas.items():
+            f = I.flatten(node, schemas)
+            n = I.resolve(node, schemas)
+            if f is None or "oneOf" in n or "anyOf" in n or "$ref" in node:
+                continue
+            ev += 1
+            if "allOf" in node or sum(1 for p in f["properties"].values() if "$ref" in str(p)) >= 2:
+                nt += 1
+            cls = c03.model_class(models, name)
+            if cls is None or not dataclasses.is_dataclass(cls):
+                viols.append(Violation(("model", "missing_or_not_dataclass"), f"{name}: {cls!r}"))
+                continue
+            fields = {fl.name: fl for fl in dataclasses.fields(cls)}
+            meta = getattr(cls, "Meta", None)
+            load = dict(getattr(meta, "key_transform_with_load", {}) or {})
+            if not f["properties"]:
+                continue
+            # every declared key maps to exactly one field
+            inv: dict[str, list[str]] = {}
+            for wire, py in load.items():
+                inv.setdefault(py, []).append(wire)
+            for key in f["properties"]:
+                if key not in load:
+                    viols.append(Violation(("model", "property_without_field"), f"{name}.{key}: Meta load map {load} fields {sorted(fields)}"))
+                    break
+                if load[key] not in fields:
+                    viols.append(Violation(("model", "mapped_field_missing"), f"{name}.{key} -> {load[key]} not in {sorted(fields)}"))
+                    break
+            else:
+                dup = {py: w for py, w in inv.items() if len(w) > 1}
+                if dup:
+                    viols.append(Violation(("model", "two_keys_one_field"), f"{name}: {dup}"))
+                    continue
+                extra = set(fields) - {load[k] for k in f["properties"]}
+                if extra:
+                    viols.append(Violation(("model", "extra_field"), f"{name}: {sorted(extra)}"))
+                    continue
+                try:
+                    hints = typing.get_type_hints(cls, include_extras=True)
+                except Exception as e:
+                    viols.append(Violation(("model", "type_hints_unresolvable", type(e).__name__), f"{name}: {e}"))
+                    continue
+                for key, pnode in f["properties"].items():
+                    fl = fields[load[key]]
+                    has_default = fl.default is not dataclasses.MISSING or fl.default_factory is not dataclasses.MISSING
+                    if (key in f["required"]) == has_default:
+                        viols.append(Violation(("model", "required_mismatch", "required_has_default" if has_default else "optional_without_default"),
+                                               f"{name}.{key}: required={key in f['required']} default={fl.default!r}"))
+                        break
+                    want = I.kind_of(pnode, schemas)
+                    got = _coarse(hints.get(fl.name))
+                    ok = (want == got or want == "any" or got == "any"
+                          or (want == "object" and got in ("object", "map"))  # property-less object -> generic mapping
+                          or (want == "map" and got in ("map", "object")))
+                    if not ok and got != "?":
+                        viols.append(Violation(("model", "kind_mismatch", want, got), f"{name}.{key}: schema {I.describe(pnode, schemas)} annotation {hints.get(fl.name)!r}"))
+                        break
+    return viols, ev, nt
 
 
-def evaluate(case):
-    return []
+def evaluate(case: dict) -> list[Violation]:
+    res = genrun.generate({**case, "cfg": {**case["cfg"], "prefix": genrun.unique_prefix()}})
+    try:
+        if not res.ok or genrun.compile_all(res):
+            return []
+        try:
+            return check_models(res, case["spec"])[0]
+        except (ImportError, SyntaxError, TypeError, NameError, AttributeError):
+            return []
+    finally:
+        genrun.cleanup(res)
+
+
+def valid_case(case: dict) -> bool:
+    return specgen.valid_case(case)
+
+
+def shards(tier: str, seed: int) -> list[dict]:
+    n_sh, per = (8, 150) if tier == "quick" else (32, 1500)
+    return [{"mode": "b_models", "seed": seed * 1000 + 500 + i, "n": per} for i in range(n_sh)]
+
+
+def run_shard(shard: dict) -> dict:
+    col = Collector()
+    gate = specgen.Gate(c03.excluded_features("C02"))
+    cases = hyp.draw_cases(specgen.cases(gate, max_ops=1, min_ops=0), shard["n"], shard["seed"])
+    col.excluded.update(gate.excluded)
+    for case in cases:
+        case = {**case, "part": "b"}
+        res = genrun.generate({**case, "cfg": {**case["cfg"], "prefix": genrun.unique_prefix()}})
+        try:
+            if not res.ok:
+                col.rejected += 1
+                continue
+            if genrun.compile_all(res):
+                col.classes["skipped_c01_compile"] += 1
+                continue
+            try:
+                viols, ev, nt = check_models(res, case["spec"])
+            except (ImportError, SyntaxError, TypeError, NameError, AttributeError):
+                col.classes["skipped_c01_import"] += 1
+                continue
+            col.record(case, viols, nt > 0, ["b_models"], sample={"part": "b", "schemas": (case["spec"].get("components") or {}).get("schemas")})
+        finally:
+            genrun.cleanup(res)
+    return col.to_dict()
